@@ -31,6 +31,9 @@ type reqSpec struct {
 	TTLMs    int64  `json:"ttl_ms"`
 	// Hold: park the enqueuer at the yield point and release it after this many rollovers (0 = no hold)
 	Hold int `json:"hold_rollovers,omitempty"`
+	// BeforeRollover: the rollover that is due at the window boundary just before this arrival has not run
+	// yet when the request is enqueued (its goroutine is late); it runs right after the call
+	BeforeRollover bool `json:"arrives_before_the_due_rollover_runs,omitempty"`
 	// observations
 	Result  string `json:"result,omitempty"`  // immediate | released | expired | full
 	DoneMs  int64  `json:"done_ms,omitempty"` // instant of return
@@ -97,6 +100,23 @@ func genScenario(r *sim.Rand) scenario {
 		}
 		if at%w < 3 || w-(at%w) < 3 {
 			at += 11
+		}
+	}
+	for i := 1; i < len(s.Reqs); i++ {
+		q, p := &s.Reqs[i], s.Reqs[i-1]
+		if q.AtMs/w > p.AtMs/w && q.AtMs%w < 400 && r.Chance(1, 2) {
+			q.BeforeRollover = true
+			// the late rollover re-arms for the rest of the window: that wait must not equal a TTL (the controller
+			// tells the timers apart by their duration)
+			for clash := true; clash; {
+				clash = false
+				for _, o := range s.Reqs {
+					if o.TTLMs == w-q.AtMs%w {
+						q.AtMs++
+						clash = true
+					}
+				}
+			}
 		}
 	}
 	s.EndMs = at + 8*w
@@ -247,9 +267,15 @@ func runCase(idx int, args sim.Args, scn scenario, v *sim.Verdict) {
 	}
 
 	// fire everything due up to target, one waiter at a time
+	skipRollover := false // leave a due rollover timer pending (its goroutine is "late")
 	advance := func(target time.Time) bool {
 		for {
 			pend := clk.Pending()
+			if skipRollover {
+				// nothing that became due after the boundary runs before the arrival: the rollover goroutine is
+				// late, and a TTL firing in that gap would expire a waiter only because of this schedule
+				pend = nil
+			}
 			if len(pend) == 0 || pend[0].Deadline.After(target) {
 				break
 			}
@@ -296,7 +322,9 @@ func runCase(idx int, args sim.Args, scn scenario, v *sim.Verdict) {
 			// the clock before that, the goroutine would compute a wait <= 0 and run further iterations on
 			// its own, unobserved (seen under load in the thorough tier: three spurious violations)
 			if !clk.WaitPending(func(p sim.Waiter) bool { _, isTTL := ttlOf[p.D]; return !isTTL }, 1, watchdog) {
-				v.Inconclude(fmt.Sprintf("case %d: rollover goroutine did not arm its next wait", idx))
+				dbg, _ := json.Marshal(scn)
+				pendDbg := fmt.Sprint(clk.Pending())
+				v.Inconclude(fmt.Sprintf("case %d: rollover goroutine did not arm its next wait; now=%d pending=%.300s scenario=%.900s", idx, nowMs(), pendDbg, dbg))
 				return false
 			}
 			rollovers++
@@ -378,9 +406,19 @@ func runCase(idx int, args sim.Args, scn scenario, v *sim.Verdict) {
 	sort.SliceStable(reqs, func(i, j int) bool { return reqs[i].AtMs < reqs[j].AtMs })
 
 	for _, q := range reqs {
+		if q.BeforeRollover {
+			// everything up to the previous boundary runs normally; the rollover due at the boundary stays pending
+			boundary := q.AtMs / (scn.WindowS * 1000) * (scn.WindowS * 1000)
+			if !advance(t0.Add(time.Duration(boundary-1) * time.Millisecond)) {
+				return
+			}
+			skipRollover = true
+			v.Count("arrivals_before_a_late_rollover", 1)
+		}
 		if !advance(t0.Add(time.Duration(q.AtMs) * time.Millisecond)) {
 			return
 		}
+		skipRollover = false // the late rollover is the first timer the next advance fires (at this instant)
 		ws := &waitState{spec: q, done: make(chan bool, 1), parked: make(chan struct{}), release: make(chan struct{})}
 		w.mu.Lock()
 		w.waits[q.ID] = ws
